@@ -126,3 +126,23 @@ Qed.
 (* writing does not change what the elements imply *)
 Lemma implied_data_of s : implied_type (data_of s) = implied_type s.
 Proof. unfold implied_type. rewrite !field_iter_data_of. reflexivity. Qed.
+
+(* the C10 invariant survives writing *)
+Lemma data_of_inv s : policy_inv s -> policy_inv (data_of s).
+Proof.
+  intros [[t [Hi Ht]] Hc]. split.
+  - exists t. split; [rewrite implied_data_of; exact Hi|]. rewrite lookup_data_of, Ht. reflexivity.
+  - intros a Ha. rewrite lookup_data_of in Ha. destruct (lookup n_context s) as [c|] eqn:E; [|discriminate].
+    cbn in Ha. injection Ha as <-. specialize (Hc c E). destruct c as [[]| |]; try discriminate; reflexivity.
+Qed.
+
+(* histories of assignments with serialisations anywhere in between *)
+Inductive pstep : Type := Assign (nv : pstr * aval) | Serialise.
+Definition run_pstep (s : pstate) (st : pstep) : pstate :=
+  match st with Assign nv => try_setattr s nv | Serialise => data_of s end.
+
+Lemma pstep_history_inv steps : forall s, policy_inv s -> policy_inv (fold_left run_pstep steps s).
+Proof.
+  induction steps as [|st r IH]; intros s H; [exact H|]. cbn [fold_left]. apply IH.
+  destruct st; [apply try_setattr_inv; exact H|apply data_of_inv; exact H].
+Qed.
